@@ -28,8 +28,9 @@ struct RuleDef {
   int reactOn = 0;                 // ... when start request #reactOn is provided
   int reactPar = 2;                // ... and its value has this parity (2 = any)
   Req reactReq;                    // ... request this (input id 10)
-  bool hasDisc = false;            // one discovered leaf: read directly at compute time
-  char discLeaf = 0;
+  bool hasDisc = false;            // discovered keys (leaves are read directly at compute time), reported in this order
+  char discLeaf = 0;               // the first of them
+  std::string discs;               // all of them (one condition for all)
   int discOn = -1;                 // -1 always, else conditional on start request #discOn
   int discPar = 2;
   int validity = 0;                // 0 always valid, 1 never valid, 2 output cell
@@ -133,9 +134,10 @@ inline bool parseWorld(const std::string& spec, World& w, std::string* err = nul
         if (!parseReq(t.substr(5), d.reactReq)) return fail("bad reaction request");
         if (isLeafKey(d.reactReq.key)) leaves.insert(d.reactReq.key);
       } else if (t[0] == '!') {
-        d.hasDisc = true;
         if (t.size() < 2) return fail("bad discovered key");
-        d.discLeaf = t[1];  // a leaf is read directly; a derived key is only reported (value-neutral)
+        if (!d.hasDisc) d.discLeaf = t[1];  // a leaf is read directly; a derived key is only reported (value-neutral)
+        d.hasDisc = true;
+        d.discs += t[1];
         if (isLeafKey(t[1])) leaves.insert(t[1]);
         if (t.size() > 2) {
           if (t.size() != 6 || t[2] != '@' || t[4] != '=') return fail("bad discovered condition");
@@ -173,7 +175,7 @@ inline bool parseWorld(const std::string& spec, World& w, std::string* err = nul
     for (auto& kv : *m) {
       for (auto& r : kv.second.start) if (!checkKey(r.key)) return fail(std::string("undefined key ") + r.key);
       if (kv.second.hasReact && !checkKey(kv.second.reactReq.key)) return fail("undefined reaction key");
-      if (kv.second.hasDisc && !checkKey(kv.second.discLeaf)) return fail("undefined discovered key");
+      for (char dk : kv.second.discs) if (!checkKey(dk)) return fail("undefined discovered key");
     }
   for (char c : leaves) w.leaves += c;
   for (auto& kv : w.rules) w.derived += kv.first;
@@ -241,14 +243,16 @@ struct Ref {
       if (cycle) { stack.pop_back(); return ""; }
       if (d.reactReq.mode == Mode::N) vals.push_back(v);
     }
-    char later = 0;
+    std::string later;
     if (d.hasDisc && (d.discOn < 0 || d.discPar == 2 || parity(got[d.discOn]) == d.discPar)) {
-      visited.insert(d.discLeaf);
-      if (isLeafKey(d.discLeaf)) {
-        auto it = e.s.find(d.discLeaf);
-        reads.push_back(leafValue(d.discLeaf, it == e.s.end() ? 0 : it->second));
-      } else {
-        later = d.discLeaf;
+      for (char dk : d.discs) {
+        visited.insert(dk);
+        if (isLeafKey(dk)) {
+          auto it = e.s.find(dk);
+          reads.push_back(leafValue(dk, it == e.s.end() ? 0 : it->second));
+        } else {
+          later += dk;
+        }
       }
     }
     stack.pop_back();
@@ -256,10 +260,10 @@ struct Ref {
     memo[k] = v;
     // A discovered DERIVED key is only reported, not read: it does not feed the value, but a clean build brings it
     // up to date after this rule has completed (so this rule is no longer on the wait-for stack).
-    if (later) {
+    for (char lk : later) {
       std::vector<char> saved;
       saved.swap(stack);
-      eval(later);
+      eval(lk);
       stack.swap(saved);
       if (cycle) return "";
     }
